@@ -17,6 +17,9 @@ def main():
 
     ctx = Ctx(prop, spec, outfile)
     import numpoly
+    import logging
+
+    logging.getLogger("numpoly").setLevel(logging.ERROR)
 
     snapshot = os.environ.get("NUMPOLY_VERIF_SNAPSHOT", "")
     where = os.path.realpath(numpoly.__file__)
